@@ -464,11 +464,9 @@ func (c *Ctx) bocHeaderAgreement() {
 				}
 			}
 		case *ssa.BinOp:
-			if x.Op == token.QUO {
-				if k, ok := constInt(x.Y); ok && k == 2 {
-					if g := guardMask(b); g != 0 {
-						mCache = g
-					}
+			if isHalving(x) {
+				if g := guardMask(b); g != 0 {
+					mCache = g
 				}
 			}
 		}
@@ -505,11 +503,9 @@ func (c *Ctx) bocHeaderAgreement() {
 				}
 			}
 		case *ssa.BinOp:
-			if x.Op == token.MUL {
-				if k, ok := constInt(x.Y); ok && k == 2 {
-					if g := guardParam(b); g != nil {
-						pCache = g
-					}
+			if isDoubling(x) {
+				if g := guardParam(b); g != nil {
+					pCache = g
 				}
 			}
 		}
@@ -541,8 +537,8 @@ func (c *Ctx) bocHeaderAgreement() {
 	// the index entry is halved exactly under hasCacheBits (reader) and doubled under cacheBits (writer)
 	halve := false
 	allInstrs(r, func(b *ssa.BasicBlock, in ssa.Instruction) {
-		if bo, ok := in.(*ssa.BinOp); ok && bo.Op == token.QUO {
-			if k, ok := constInt(bo.Y); ok && k == 2 {
+		if bo, ok := in.(*ssa.BinOp); ok {
+			if isHalving(bo) {
 				for _, ft := range factsAt(r, b) {
 					// the cache-bits flag: a bool merged from the header variants, one of whose sources is flags&32
 					if ph, ok := ft.Cond.(*ssa.Phi); ok && ft.Truth && derivesFrom(ph, func(v ssa.Value) bool {
@@ -561,8 +557,8 @@ func (c *Ctx) bocHeaderAgreement() {
 	})
 	double := false
 	allInstrs(w, func(b *ssa.BasicBlock, in ssa.Instruction) {
-		if bo, ok := in.(*ssa.BinOp); ok && bo.Op == token.MUL {
-			if k, ok := constInt(bo.Y); ok && k == 2 {
+		if bo, ok := in.(*ssa.BinOp); ok {
+			if isDoubling(bo) {
 				for _, ft := range factsAt(w, b) {
 					if p, ok := ft.Cond.(*ssa.Parameter); ok && p.Name() == "cacheBits" && ft.Truth {
 						double = true
@@ -1009,4 +1005,24 @@ func firstUser(v ssa.Value) ssa.Instruction {
 		}
 	}
 	return nil
+}
+
+// isHalving / isDoubling: x/2 or, on an unsigned value, x>>1; x*2 or x<<1.
+func isHalving(bo *ssa.BinOp) bool {
+	k, ok := constInt(bo.Y)
+	if !ok {
+		return false
+	}
+	if bo.Op == token.QUO && k == 2 {
+		return true
+	}
+	if bt, isB := bo.X.Type().Underlying().(*types.Basic); isB && bt.Info()&types.IsUnsigned != 0 {
+		return bo.Op == token.SHR && k == 1
+	}
+	return false
+}
+
+func isDoubling(bo *ssa.BinOp) bool {
+	k, ok := constInt(bo.Y)
+	return ok && ((bo.Op == token.MUL && k == 2) || (bo.Op == token.SHL && k == 1))
 }
